@@ -114,6 +114,9 @@ pub fn build_cases(w: &World, thorough: bool) -> Vec<Case> {
                 // ... and where the result type is pinned by an addition
                 let sum = X::Bin('+', Box::new(e.clone()), Box::new(X::Pow(Box::new(base.clone()), "1", (1, 1))));
                 cases.push(Case { code: sum.render(), expect: inf.infer(&sum), family: "constant exponent expression" });
+                // ... and by a scalar (consistent exactly when the exponent evaluates to 0)
+                let sum0 = X::Bin('+', Box::new(e.clone()), Box::new(X::Lit("2")));
+                cases.push(Case { code: sum0.render(), expect: inf.infer(&sum0), family: "constant exponent expression" });
             }
             for t in &unsupported {
                 // whether such an input is accepted is not specified; if it is, C01 judges its run
